@@ -42,6 +42,7 @@ def run(ctx):
     ctx.guarded(r, C10_.r1_buffers)
     r = ctx.rule("R2c", "stride, element-size, register-window and frame constants agree with the data types", 19)
     ctx.guarded(r, JD.r_strides)
+    ctx.guarded(r, JD.r_narrow_displacements)
     r = ctx.rule("R2k", "load_imm loads its argument on every path (or every clobber of the immediate register invalidates its cache)", 4)
     for kind in AC.ALL:
         ctx.guarded(r, AC.check_load_imm, kind)
